@@ -21,6 +21,7 @@ def main():
     ap.add_argument("--tests", action="store_true", help="also run corgi's own test suite on the mutant")
     ap.add_argument("--out", default="")
     ap.add_argument("--auto-c19", action="store_true", help="run the C19 check only for changes whose name starts with c19_ (it needs the second, f32 build)")
+    ap.add_argument("--own", action="store_true", help="run only the check of the property named by the change's prefix (c01_... -> C01)")
     ap.add_argument("names", nargs="*")
     a = ap.parse_args()
     checks = [c for c in a.checks.split(",") if c]
@@ -48,6 +49,8 @@ def main():
             res = {}
             for c in checks:
                 if a.auto_c19 and c == "C19" and not name.startswith("c19_"):
+                    continue
+                if a.own and not name.lower().startswith(c.lower() + "_"):
                     continue
                 t0 = time.time()
                 r = subprocess.run(f"{ROOT}/bin/check {c} quick", shell=True, capture_output=True, text=True, env=env)
